@@ -16,9 +16,9 @@ Section Unwrap.
     end.
 
   (** the pipeline of a range expression stops in front of `| unwrap` (allowUnwrap), with the pipe consumed *)
-  Lemma pipeline_print_unwrap sts : forall fuel acc p r, chain_mid sts (plain TPipe [] :: plain TUnwrap [] :: r) -> (fuel_needed sts < fuel)%nat ->
-    parse_pipeline fuel true acc {| prev := p; rest := print_stages anch re_names sts ++ plain TPipe [] :: plain TUnwrap [] :: r |} =
-      POk (acc ++ sts) {| prev := plain TPipe [] :: rev (print_stages anch re_names sts) ++ p; rest := plain TUnwrap [] :: r |}.
+  Lemma pipeline_print_unwrap sts : forall fuel acc p r, chain_mid sts (punct TPipe :: punct TUnwrap :: r) -> (fuel_needed sts < fuel)%nat ->
+    parse_pipeline fuel true acc {| prev := p; rest := print_stages anch re_names sts ++ punct TPipe :: punct TUnwrap :: r |} =
+      POk (acc ++ sts) {| prev := punct TPipe :: rev (print_stages anch re_names sts) ++ p; rest := punct TUnwrap :: r |}.
   Proof.
     induction sts as [|s t IH]; intros fuel acc p r Hc Hf; (destruct fuel as [|f]; [lia|]).
     - cbn. rewrite app_nil_r. reflexivity.
@@ -36,9 +36,9 @@ Section Unwrap.
     else None.
 
   Definition print_unwrap (cv l : bytes) : list token :=
-    plain TUnwrap [] ::
+    punct TUnwrap ::
     match conv_tok cv with
-    | Some k => [plain k cv; plain TOpenParen []; plain TIdent l; plain TCloseParen []]
+    | Some k => [plain k cv; punct TOpenParen; plain TIdent l; punct TCloseParen]
     | None => [plain TIdent l]
     end.
 
@@ -73,13 +73,13 @@ Section Unwrap.
   Qed.
 
   Definition print_unwrap_range cls sel sts cv l rtxt rns off : list token :=
-    print_selector anch re_names cls sel ++ print_stages anch re_names sts ++ plain TPipe [] :: print_unwrap cv l ++ print_range rtxt rns off.
+    print_selector anch re_names cls sel ++ print_stages anch re_names sts ++ punct TPipe :: print_unwrap cv l ++ print_range rtxt rns off.
 
   Definition unwrap_of (cv l : bytes) : unwrap := {| u_op := cv; u_label := l; u_filters := [] |}.
 
   Lemma unwrap_range_print cls sel sts cv l rtxt rns off p r fuel :
     Forall (wf_lmatcher anch cls) sel -> Forall (fun m => ttype_eqb (cls (m_label m)) TCloseBrace = false) sel ->
-    chain_mid sts (plain TPipe [] :: plain TUnwrap [] :: match conv_tok cv with Some k => [plain k cv; plain TOpenParen []; plain TIdent l; plain TCloseParen []] | None => [plain TIdent l] end ++ print_range rtxt rns off ++ r) ->
+    chain_mid sts (punct TPipe :: punct TUnwrap :: match conv_tok cv with Some k => [plain k cv; punct TOpenParen; plain TIdent l; punct TCloseParen] | None => [plain TIdent l] end ++ print_range rtxt rns off ++ r) ->
     wf_unwrap cv -> (length sel < fuel)%nat -> (fuel_needed sts < fuel)%nat -> (off = None -> not_offset r) ->
     parse_range_expr fuel {| prev := p; rest := print_unwrap_range cls sel sts cv l rtxt rns off ++ r |} =
       POk {| r_sel := sel; r_range := rns; r_pipe := sts; r_unwrap := Some (unwrap_of cv l); r_offset := option_map snd off |}
@@ -89,7 +89,7 @@ Section Unwrap.
     unfold parse_range_expr, print_unwrap_range. rewrite <- !app_assoc. cbn [app]. rewrite <- ?app_assoc.
     erewrite bind_POk by (apply (parse_selector_print anch re_names cls sel p _ fuel Hsel Hf1 Hnc)). cbv beta.
     (* which branch: the text after the selector starts with '|' or a filter operator *)
-    assert (Hhead : exists t0 tl, print_stages anch re_names sts ++ plain TPipe [] :: print_unwrap cv l ++ print_range rtxt rns off ++ r = t0 :: tl /\
+    assert (Hhead : exists t0 tl, print_stages anch re_names sts ++ punct TPipe :: print_unwrap cv l ++ print_range rtxt rns off ++ r = t0 :: tl /\
                       is_ty t0 TOpenBracket = false /\ pipe_or_filter t0 = true).
     { destruct sts as [|s t]; [cbn; eexists; eexists; split; [reflexivity|split; reflexivity]|].
       cbn [chain_mid] in Hchain. destruct Hchain as [Hs _].
@@ -102,7 +102,7 @@ Section Unwrap.
     assert (Hfpos : (0 < fuel)%nat) by lia.
     erewrite bind_POk; [|erewrite bind_POk by (apply (pipeline_print_unwrap sts fuel [] _ _ Hchain Hf2)); cbv beta;
                          erewrite bind_POk by reflexivity; cbv beta; cbn [rest];
-                         change (is_ty (plain TUnwrap []) TUnwrap) with true; cbn iota;
+                         change (is_ty (punct TUnwrap) TUnwrap) with true; cbn iota;
                          erewrite bind_POk by (apply (unwrap_print cv l fuel _ (print_range rtxt rns off ++ r) Hw); [reflexivity|exact Hfpos]); cbv beta; reflexivity].
     cbv beta.
     erewrite bind_POk by (apply (range_offset_print rtxt rns off _ r Hoff)). cbv beta.
@@ -113,25 +113,25 @@ Section Unwrap.
   Definition print_opt_grouping (g : option grouping) : list token := match g with Some g => print_grouping g | None => [] end.
 
   Definition print_unwrap_agg cls (o : rangeop) sel sts cv l rtxt rns off (g : option grouping) : list token :=
-    plain (rangeop_tok o) [] :: plain TOpenParen [] :: print_unwrap_range cls sel sts cv l rtxt rns off ++ plain TCloseParen [] :: print_opt_grouping g.
+    punct (rangeop_tok o) :: punct TOpenParen :: print_unwrap_range cls sel sts cv l rtxt rns off ++ punct TCloseParen :: print_opt_grouping g.
 
   Definition unwrap_lr sel sts cv l rns (off : option (bytes * Z)) : logrange :=
     {| r_sel := sel; r_range := rns; r_pipe := sts; r_unwrap := Some (unwrap_of cv l); r_offset := option_map snd off |}.
 
   Definition unwrap_tail cv l rtxt rns off (r : list token) : list token :=
-    plain TPipe [] :: plain TUnwrap [] :: match conv_tok cv with Some k => [plain k cv; plain TOpenParen []; plain TIdent l; plain TCloseParen []] | None => [plain TIdent l] end ++ print_range rtxt rns off ++ r.
+    punct TPipe :: punct TUnwrap :: match conv_tok cv with Some k => [plain k cv; punct TOpenParen; plain TIdent l; punct TCloseParen] | None => [plain TIdent l] end ++ print_range rtxt rns off ++ r.
 
   Theorem unwrap_agg_parse_lemma cls o sel sts cv l rtxt rns off g :
     range_validate o None g true = true ->
     Forall (wf_lmatcher anch cls) sel -> Forall (fun m => ttype_eqb (cls (m_label m)) TCloseBrace = false) sel ->
-    chain_mid sts (unwrap_tail cv l rtxt rns off (plain TCloseParen [] :: print_opt_grouping g)) ->
+    chain_mid sts (unwrap_tail cv l rtxt rns off (punct TCloseParen :: print_opt_grouping g)) ->
     wf_unwrap cv ->
     parse_tokens (print_unwrap_agg cls o sel sts cv l rtxt rns off g) = Parsed (ERange o (unwrap_lr sel sts cv l rns off) None g).
   Proof.
     intros Hval Hsel Hnc Hchain Hw. unfold parse_tokens.
     set (toks := print_unwrap_agg cls o sel sts cv l rtxt rns off g).
     assert (Hst : (fuel_needed sts <= 2 * length (print_stages anch re_names sts))%nat).
-    { clear -Hchain. revert Hchain. generalize (unwrap_tail cv l rtxt rns off (plain TCloseParen [] :: print_opt_grouping g)). intros r0.
+    { clear -Hchain. revert Hchain. generalize (unwrap_tail cv l rtxt rns off (punct TCloseParen :: print_opt_grouping g)). intros r0.
       induction sts as [|s t IH]; intro H; [cbn; lia|]. cbn [chain_mid] in H. destruct H as [Hs [_ Hc]]. cbn [fuel_needed].
       change (print_stages anch re_names (s :: t)) with (print_stage anch re_names s ++ print_stages anch re_names t). rewrite app_length.
       pose proof (stage_fuel anch re_names s Hs). specialize (IH Hc). lia. }
@@ -144,7 +144,7 @@ Section Unwrap.
     assert (Hf : (length sel < fuel /\ fuel_needed sts < fuel /\ match g with Some g0 => (length (g_labels g0) <= fuel)%nat | None => True end)%nat)
       by (destruct g; repeat split; try lia; exact I).
     clear Ef Hlen Hst. subst toks. destruct (rangeop_tok_not o) as [Hb Hp].
-    assert (Hhead : match print_unwrap_agg cls o sel sts cv l rtxt rns off g with [] => eof_tok | t :: _ => t end = plain (rangeop_tok o) []) by reflexivity.
+    assert (Hhead : match print_unwrap_agg cls o sel sts cv l rtxt rns off g with [] => eof_tok | t :: _ => t end = punct (rangeop_tok o)) by reflexivity.
     rewrite core_expr_metric by (rewrite Hhead; exact Hb).
     rewrite core_metric.
     assert (H1 : parse_core (S (S fuel)) CMetric1 {| prev := []; rest := print_unwrap_agg cls o sel sts cv l rtxt rns off g |} =
@@ -152,10 +152,10 @@ Section Unwrap.
     { unfold print_unwrap_agg. cbn [parse_core].
       stepb. rewrite Hp. cbn iota. rewrite range_op_of_tok.
       stepb. stepb. stepb.
-      assert (Hh2 : match print_unwrap_range cls sel sts cv l rtxt rns off ++ plain TCloseParen [] :: print_opt_grouping g with [] => eof_tok | t :: _ => t end = plain TOpenBrace []) by reflexivity.
-      rewrite Hh2. change (is_ty (plain TOpenBrace []) TNumber) with false. cbn iota.
+      assert (Hh2 : match print_unwrap_range cls sel sts cv l rtxt rns off ++ punct TCloseParen :: print_opt_grouping g with [] => eof_tok | t :: _ => t end = punct TOpenBrace) by reflexivity.
+      rewrite Hh2. change (is_ty (punct TOpenBrace) TNumber) with false. cbn iota.
       stepb.
-      erewrite bind_POk by (apply (unwrap_range_print cls sel sts cv l rtxt rns off _ (plain TCloseParen [] :: print_opt_grouping g) (S fuel) Hsel Hnc Hchain Hw); [lia|lia|intros _; reflexivity]).
+      erewrite bind_POk by (apply (unwrap_range_print cls sel sts cv l rtxt rns off _ (punct TCloseParen :: print_opt_grouping g) (S fuel) Hsel Hnc Hchain Hw); [lia|lia|intros _; reflexivity]).
       cbv beta. stepb. stepb.
       destruct g as [g0|].
       - cbn [print_opt_grouping].
